@@ -16,7 +16,7 @@ import (
 )
 
 func init() {
-	vkit.Register("btree", vkit.N{Quick: 6000, Thorough: 400000}, genBT, runBT)
+	vkit.Register("btree", vkit.N{Quick: 6000, Thorough: 200000}, genBT, runBT)
 }
 
 type BTOp struct {
